@@ -64,6 +64,7 @@ type consumer struct {
 	held     []base.LogChunk
 	confirmed map[string]bool
 	handedBack []base.LogChunk
+	handedEarly int // of those, the first n were handed back by a consumer that ended mid-run (no other writer at that time)
 	stopEarly bool
 }
 
@@ -110,6 +111,9 @@ func (c *consumer) finish() {
 	held := c.held
 	c.held = nil
 	c.handedBack = append(c.handedBack, held...)
+	if c.stopEarly {
+		c.handedEarly += len(held)
+	}
 	c.mu.Unlock()
 	for _, ch := range held {
 		c.args.OnChunkLeftover(ch)
@@ -337,8 +341,12 @@ func runCase(c Case) vh.Result {
 		for _, d := range files {
 			total += int64(len(d))
 		}
-		for _, ch := range handed {
-			slack += int64(len(ch.Data))
+		// only chunks handed back while the feeder saves the queue at the stop can race with it for the last bytes of
+		// the quota; a consumer that ended mid-run handed its chunks back with no other writer around
+		for i, ch := range handed {
+			if i >= g.cons.handedEarly {
+				slack += int64(len(ch.Data))
+			}
 		}
 		bound := max(c.MaxBytes, diskAtStart) + slack
 		if total > bound && !overCapacity {
@@ -400,6 +408,25 @@ func runCase(c Case) vh.Result {
 			g.cons.cmd <- op
 			<-g.cons.ack
 			g.consDone = true
+			// the consumer handed back what it held and ended; nothing else writes to the queue directory at this
+			// moment (Accept is called from this goroutine, the feeder saves only at the stop): the quota holds now
+			if !overCapacity && !c.BadDir {
+				var total int64
+				for _, d := range listFiles() {
+					total += int64(len(d))
+				}
+				if total > max(c.MaxBytes, diskAtStart) {
+					g.cons.mu.Lock()
+					nh := len(g.cons.handedBack)
+					g.cons.mu.Unlock()
+					res.Violation = vh.Fail("buffer:over-quota", "op %d: after the consumer ended mid-run and handed back %d chunk(s), the queue files total %d bytes, limit %d (on disk when this generation started: %d); no other writer was active", oi, nh, total, c.MaxBytes, diskAtStart)
+					res.NonTrivial = true
+					return res
+				}
+				if len(g.cons.handedBack) > 0 {
+					res.Classes = append(res.Classes, "hand-back-mid-run")
+				}
+			}
 		case "arm":
 			// wait until the in-memory window provably holds >= MaxMem/2 chunks with a stalled consumer:
 			// window >= pending - queued(in the persistent queue) - 1 (in the feeder's hand) - held by the consumer
